@@ -454,7 +454,10 @@ def cache_signatures(inference_state, context, bracket_leaf, code_lines, user_po
     before_bracket = re.match(r'.*\(', whole, re.DOTALL)
 
     module_path = context.get_root_context().py__file__()
-    if module_path is None:
+    if module_path is None or before_bracket is None:
+        # Without a match the key would only consist of the path and the
+        # bracket position, which stay the same when the code around the call
+        # changes: signatures of an earlier version of the file were returned.
         yield None  # Don't cache!
     else:
         yield (module_path, before_bracket, bracket_leaf.start_pos)
